@@ -12,7 +12,7 @@ INFO = {
             "this._.k, this._params.k, sibling, two levels up, _root) x every embedding (top level, Struct member, nested Struct, Array, "
             "Prefixed, IfThenElse, Switch, Aligned, Renamed) x contexts that supply each alphabet value or omit the key. "
             "(c) classes with user-given amounts (Transformed with every pair of decode/encode amounts over {None,1..4}, Restreamed) and the adapter "
-            "classes: exception class and measured advance. non-trivial = sizeof answered and the stream advance of build and parse was measured; distinct = (term, kw, value)",
+            "classes: exception class and measured advance; (d) every sized T1/T2 term as a lazily skipped member (LazyStruct, Lazy, LazyArray). non-trivial = sizeof answered and the stream advance of build and parse was measured; distinct = (term, kw, value)",
     "bounds": {"quick": {"ctx_values": [0, 1, 2, 3]}, "thorough": {"ctx_values": [0, 1, 2, 3, 5, 255, 256], "values": "every value read from every n-byte string over S6 (n<=4), {00,01,ff} (n<=6), {00,ff} (n<=8)"}},
     "trusted_base": ["mc/ref.py sizeof (cross-check only; the verdict is the measured stream advance and the exception class)"],
     "assumptions": ["exempt by the property: read-to-EOF transforms outside a delimiter are measured with an empty trailer only; "
@@ -30,6 +30,7 @@ def units(tier):
     if tier == "thorough":
         terms += [(t, "T5") for t in G.tier5(False)]
     terms += [(t, "X") for t in extra_terms() + G.discard_terms() + G.zero_size_terms()]
+    terms += [(t, "TLz") for t in G.lazy_hosts()]
     for ch in chunks(terms, 12):
         us.append({"kind": "terms", "terms": [[t, tn] for t, tn in ch]})
     for i in range(len(slots())):
